@@ -151,13 +151,25 @@ pub fn draw_config(tape: &mut Tape, flavor: Flavor, max_deliveries: usize) -> Co
     let mut script = ConsumerScript {
         with_stats,
         stop_after: None,
+        stop_at_request: None,
+        stop_value: tape.draw(3) != 2,
         drop_chunks_after: None,
         drop_stats_after: None,
         late_phase: tape.draw(2) == 1,
     };
     let mut chunks_until_end = None;
     match action {
-        0 => script.stop_after = Some(if flavor == Flavor::FullRotation { max_deliveries } else { k }),
+        0 => {
+            if flavor != Flavor::FullRotation && tape.draw(3) == 2 {
+                // at an arbitrary moment: after a number of requests (start-up needs 12..1010)
+                script.stop_at_request = Some(match tape.weighted(&[3, 2]) {
+                    0 => 10 + tape.draw(60),
+                    _ => 20 + tape.draw(600),
+                });
+            } else {
+                script.stop_after = Some(if flavor == Flavor::FullRotation { max_deliveries } else { k });
+            }
+        }
         1 => script.drop_chunks_after = Some(k),
         2 => {
             if with_stats {
@@ -261,7 +273,20 @@ pub fn make_world(core: &mut Core, cfg: &Config, seed: u64) -> RtWorld {
             start_stamp_ms: start,
             vcp: vcp_from_seed(vcp_seed),
             vcp_seed,
-            stamps: (0..cfg.k0 as i64).map(|i| start + i * step).collect(),
+            stamps: {
+                let mut st: Vec<i64> = (0..cfg.k0 as i64).map(|i| start + i * step).collect();
+                // a burst right before the start: the newest 2..4 chunks share one upload second
+                if cfg.k0 >= 2 && seed % 5 == 0 {
+                    let m = (2 + (seed / 5) % 3) as usize;
+                    let last = *st.last().unwrap();
+                    let n = st.len();
+                    for x in st.iter_mut().skip(n.saturating_sub(m)) {
+                        *x = last;
+                    }
+                    core.ctx.count("newest_chunks_share_a_second");
+                }
+                st
+            },
         },
     );
     w.need_fails = core.tape.draw(w.max_need_fails + 1);
